@@ -168,12 +168,22 @@ func checkWith(e *vt.Env, fc string, c Case) (verdict, error) {
 				return verdict{}, fmt.Errorf("fc exits 0 but %s is incomplete: the translation of the last definition of the input (%q) is missing\n%s", filepath.Base(g), c.MustContain, describe(c))
 			}
 		}
-		// completeness: a second run in a fresh directory writes the same bytes
+		// completeness: a second run in another directory writes the same bytes - over whatever was there
+		// before: half of the time the destination holds an OLDER, LONGER version of the output (the first
+		// run's bytes followed by a stale tail), which a complete write has to replace
 		dir2 := filepath.Join(base, "b")
-		r2, _, err := runOnce(e, fc, c, dir2, 60*time.Second)
+		args2, _, err := prepare(e, c, dir2)
 		if err != nil {
 			return verdict{}, err
 		}
+		staleTail := seq%2 == 0
+		if staleTail {
+			for _, a := range foArgs {
+				b1, _ := os.ReadFile(genPath(dir, a))
+				os.WriteFile(genPath(dir2, a), append(append([]byte{}, b1...), []byte("\n// stale tail of an older, longer version\nfunc staleTail() {}\n")...), 0o644)
+			}
+		}
+		r2 := pipeline.RunFC(fc, dir2, 60*time.Second, args2...)
 		if r2.Exit != 0 && !r2.TimedOut {
 			return verdict{}, fmt.Errorf("fc exits 0 on the first run and %d on an identical second run\n%s", r2.Exit, describe(c))
 		}
@@ -181,6 +191,9 @@ func checkWith(e *vt.Env, fc string, c Case) (verdict, error) {
 			b1, _ := os.ReadFile(genPath(dir, a))
 			b2, _ := os.ReadFile(genPath(dir2, a))
 			if string(b1) != string(b2) {
+				if staleTail && strings.HasPrefix(string(b2), string(b1)) {
+					return verdict{}, fmt.Errorf("fc exits 0 but %s still holds the tail of the older, longer file that was there before (not completely written)\n%s", filepath.Base(genPath(dir, a)), describe(c))
+				}
 				return verdict{}, fmt.Errorf("two runs on the same input wrote different %s (incomplete or nondeterministic write)\n%s", filepath.Base(genPath(dir, a)), describe(c))
 			}
 		}
